@@ -6,6 +6,7 @@ A case is {"cls": 0..4, "L": initial max_lag, "ops": [...]}; ops (lags are magni
   ["ae", layer, u, v]  add_edge          ["aes", layer, [[u, v], ...]]  add_edges_from
   ["re", layer, u, v]  remove_edge       ["res", layer, [[u, v], ...]]  remove_edges_from
   ["av", x] add_variable   ["rv", x] remove_variable   ["sml", n] set_max_lag   ["cp"] G = G.copy()
+  ["or", u, v] orient_uncertain_edge (CPDAG / PAG)     ["he", layer, u, v] has_edge (query; its answer is compared)
 After every op the full observable state is compared with the model: raised?, max_lag, node set, per layer the
 layer's own max_lag and its edge set; for copy additionally the class of the copy, and every original a copy was
 taken from must never change again.  After a raise the model state is the pre-state, so the comparison is the
@@ -24,7 +25,9 @@ LEVEL_TEXT = ("Coq theorems, all unbounded over histories (induction over the op
               "ts_class_stable (copy is an equal state of the same class and max_lag, the original is unaffected by later ops on the copy), "
               "ts_refines (every successful single op acts on each layer's template set exactly as the abstract template machine: add / "
               "remove one template, drop a variable's templates, drop templates longer than the new window; batches are atomic "
-              "sequences of single ops and are covered by the invariant and atomicity theorems, not by ts_refines). Nothing is bounded. "
+              "sequences of single ops and are covered by the invariant and atomicity theorems, not by ts_refines; likewise "
+              "orient_uncertain_edge = remove the uncertain edge family then add the directed one, atomically; has_edge is a query whose "
+              "answer is compared). Nothing is bounded. "
               "Six old_*_refuted theorems (C13/Refuted.v) are witness statements about an as-is transcription of the code BEFORE the "
               "repairs 35e75c8 / 9a3603d (documentation only; the transcription is not tied to any tree). "
               "The tie of the model to /repo is by correspondence only: the extracted model and the real classes are run on the same "
@@ -43,18 +46,23 @@ LAYER_NAMES = {0: [None], 1: [None], 2: ["directed", "bidirected"], 3: ["directe
 ORDERED = {0: [0], 1: [1], 2: [1, 0], 3: [1, 0], 4: [1, 1, 0, 0]}
 CLS_NAMES = ["StationaryTimeSeriesGraph", "StationaryTimeSeriesDiGraph", "StationaryTimeSeriesMixedEdgeGraph",
              "StationaryTimeSeriesCPDAG", "StationaryTimeSeriesPAG"]
-OPC = {"ae": 0, "aes": 1, "re": 2, "res": 3, "av": 4, "rv": 5, "sml": 6, "cp": 7}
+OPC = {"ae": 0, "aes": 1, "re": 2, "res": 3, "av": 4, "rv": 5, "sml": 6, "cp": 7, "or": 8, "he": 9}
 
 RULE = ("histories per class shape (5 shapes): every sequence of exactly 2 (quick) / 3 (thorough) ops over a reduced alphabet "
         "(per layer: add lagged, add contemporaneous, remove lagged; add/remove variable, set_max_lag 1/2/3, copy, one batch) from "
         "max_lag 1 and 2, a sample of length-3 sequences (quick); a boundary stream (per layer a variable with edges at lags 0, 1 and "
         "max_lag, then every pair out of: remove that / the other variable, set_max_lag to the same value / +2 / +3 / 1 / 0, copy, empty "
-        "batch, batch listing one edge twice, batch with a bad edge between two copies of a good one); a stale-state stream (warm-up "
+        "batch, batch listing one edge twice, batch with a bad edge between two copies of a good one); an argument-order stream (one "
+        "lagged / contemporaneous / auto-lagged template per layer, then every edge-naming op: add, remove, has_edge, "
+        "orient_uncertain_edge on CPDAG / PAG, the bulk forms, add / has_edge in the next and in an unknown layer, naming the edge "
+        "earlier-first and later-first, by the inserted copy and by a homologous copy one lag back, then an observing op; a quarter of it "
+        "and a third of the random mixed-edge histories with the first edge-type layer removed and re-added so that edge_types has "
+        "another order); a stale-state stream (warm-up "
         "queries, then a node-count-preserving edit: swap a variable, move an edge to another variable / lag / layer, then set_max_lag / "
         "copy / remove_variable); seeded random histories of length 20 (quick) / 150 (thorough) over 2-3 variables, max_lag 1..4, lags "
         "0..max_lag+1, all op kinds, duplicates in batches; the same with variables named like lag tuples ((v,0), (v,-1)) and with "
         "constructor edge lists (modelled as add_edges_from on the empty graph). Variants (case['var'] seeds them per op): batch argument "
-        "as list / tuple / generator / iterator, the list argument compared before/after, warm-up queries before ops and before copy(), "
+        "as list / tuple / generator / iterator, the list argument compared before/after, lags spelled as numpy.int64 (25 % of the ops), warm-up queries before ops and before copy(), "
         "on the graph and on every original a copy was taken from; always: a twin object built from the same constructor arguments must "
         "stay as built. Every prefix is compared. distinct by (class, L, ops, init, variant seed, label family); non-trivial = some state "
         "of the history has an edge and the history contains a successful set_max_lag or variable removal or copy after that")
@@ -90,6 +98,8 @@ def _alphabet(cls):
         ops.append(["re", ly, [0, 1], [1, 0]])
     ops.append(["aes", 0, [[[1, 2], [1, 0]], [[1, 0], [0, 0]]]])
     ops += [["av", 2], ["rv", 0], ["sml", 1], ["sml", 2], ["sml", 3], ["cp"]]
+    if cls >= 3:
+        ops += [["or", [0, 1], [1, 0]], ["or", [1, 0], [0, 1]], ["or", [0, 0], [1, 0]], ["or", [1, 0], [0, 0]]]
     return ops
 
 
@@ -129,13 +139,19 @@ def _rand_history(rng, cls, nv, L0, length):
             ops.append(["av", rng.randrange(nv)])
         elif r < 0.74:
             ops.append(["rv", rng.randrange(nv)])
-        elif r < 0.92:
+        elif r < 0.90:
             n = rng.choice([0, 1, 1, 2, 2, 3, 3, 4, 4, 5, L + 1, max(1, L - 1), L, L])
             ops.append(["sml", n])
             if n > 0:
                 L = n
-        else:
+        elif r < 0.95 or cls < 3:
             ops.append(["cp"])
+        else:
+            u, v = _rand_edge(rng, cls, ly, nv, L, True)
+            ops.append(["or", u, v] if rng.random() < 0.7 else ["or", v, u])
+        if rng.random() < 0.06:
+            u, v = _rand_edge(rng, cls, ly, nv, L, True)
+            ops.append(["he", ly, u, v] if rng.random() < 0.5 else ["he", ly, v, u])
     return ops
 
 
@@ -180,6 +196,31 @@ def _stale_histories(cls, L0):
                 yield [["av", 0], ["ae", ly, [0, 1], [1, 0]], ["ae", ly, [1, 0], [1, 0]]] + [list(o) for o in e] + [list(o) for o in r]
 
 
+def _order_histories(cls, L0):
+    """argument-order freedom: one template (lagged / contemporaneous / auto-lagged) in one layer, then EVERY edge-naming
+    op (add, remove, has_edge, orient_uncertain_edge, the bulk forms, add / has_edge in the next layer) naming that edge
+    earlier-first and later-first, by the copy it was inserted with and by a homologous copy one lag further back, then an
+    observing / follow-up op.  A raise must leave everything unchanged (the model state is the pre-state)."""
+    nl = len(LAYER_NAMES[cls])
+    for ly in range(nl):
+        ly2 = (ly + 1) % nl
+        for u, v in ([[0, 1], [1, 0]], [[0, 0], [1, 0]], [[1, 0], [0, 0]], [[0, 1], [0, 0]]):
+            u1, v1 = [u[0], u[1] + 1], [v[0], v[1] + 1]
+            for a, b in ((u, v), (v, u), (u1, v1), (v1, u1)):
+                mids = [["ae", ly, a, b], ["re", ly, a, b], ["he", ly, a, b], ["aes", ly, [[a, b]]], ["res", ly, [[a, b]]],
+                        ["res", ly, [[a, b], [b, a]]], ["aes", ly, [[a, b], [b, a]]]]
+                if nl > 1:
+                    mids += [["ae", ly2, a, b], ["he", ly2, a, b], ["he", nl, a, b]]
+                if cls >= 3:
+                    mids += [["or", a, b]]
+                tails = [["he", ly, u, v], ["re", ly, u, v], ["sml", L0 + 1], ["cp"]]
+                if cls >= 3:
+                    tails += [["or", u, v], ["or", v, u], ["he", 0, u, v]]
+                for m in mids:
+                    for t in tails:
+                        yield [["ae", ly, u, v], [m[0]] + [x for x in m[1:]], list(t)]
+
+
 def _rand_init(rng, cls, nv, L):
     """valid constructor edge lists per layer (only layers without a cross-layer validity check get edges)"""
     nl = len(LAYER_NAMES[cls])
@@ -213,6 +254,12 @@ def gen_cases(tier, rng):
                 if k % 2:
                     c["var"] = rng.randrange(1 << 30)
                 yield c
+            if L0 == 2:
+                for k, ops in enumerate(_order_histories(cls, L0)):
+                    c = {"kind": "order", "cls": cls, "L": L0, "ops": ops}
+                    if cls >= 2 and k % 4 == 0:
+                        c["_layers"] = "rot"
+                    yield c
             for ops in _stale_histories(cls, L0):
                 # warm up once, right before the count-preserving edit (a query in between would refresh a memo)
                 yield {"kind": "stale", "cls": cls, "L": L0, "ops": ops, "warm_at": [3]}
@@ -224,6 +271,8 @@ def gen_cases(tier, rng):
             c = {"kind": "rand", "cls": cls, "L": L0, "ops": _rand_history(rng, cls, nv, L0, length)}
             if i % 2:
                 c["var"] = rng.randrange(1 << 30)
+            if cls >= 2 and i % 3 == 0:
+                c["_layers"] = "rot"
             yield c
         for i in range(nr // 2):
             nv = rng.choice([2, 3])
@@ -256,10 +305,11 @@ def _canon_state(L, nodes, layers):
 
 def decode(case, v):
     steps = []
-    for raised, st in v:
+    for raised, st, ans in v:
         _c, L, nodes, layers = st
         d = _canon_state(L, nodes, layers)
         d["raised"] = raised
+        d["answer"] = ans
         steps.append(d)
     if case.get("init") is not None:
         k = len(case["init"])
@@ -338,7 +388,7 @@ def _snap(G, cls, inv):
         layers = []
         names = LAYER_NAMES[cls]
         gs = G.get_graphs()
-        if list(gs.keys()) != names:
+        if sorted(gs.keys()) != sorted(names):
             out["layer_names"] = list(gs.keys())
         for k, name in enumerate(names):
             lg = gs[name]
@@ -359,7 +409,12 @@ def run_impl(case):
     names = LAYER_NAMES[cls]
     var = case.get("var")
 
+    spell = {"np": False}
+
     def node(n):
+        if spell["np"]:
+            import numpy as _np
+            return (lab(n[0]), _np.int64(-n[1]))   # the library itself creates such nodes (np.abs in add_homologous_edges)
         return (lab(n[0]), -n[1])
 
     def edges(es):
@@ -374,6 +429,12 @@ def run_impl(case):
         init = [edges(es) for es in case["init"]]
         init_before = _copy.deepcopy(init)
     G = _build(cls, case["L"], init)
+    if case.get("_layers") == "rot" and cls >= 2:
+        # first edge-type layer removed and re-added through the public API: edge_types gets another order
+        first = G.edge_types[0]
+        lg = G.get_graphs(first)
+        G.remove_edge_type(first)
+        G.add_edge_type(lg, first)
     # a second live object from the SAME constructor arguments: must stay as built whatever happens to G
     twin = _build(cls, case["L"], init)
     twin0 = _snap(twin, cls, inv)
@@ -393,6 +454,7 @@ def run_impl(case):
             _warm(G, cls)
             for H, _b in originals:
                 _warm(H, cls)
+        spell["np"] = rv is not None and rv.random() < 0.25
         pre_vars = set(n[0] for n in G.nodes)
         raised, exc, extra = 0, None, {}
         try:
@@ -421,6 +483,10 @@ def run_impl(case):
                 G.remove_variable(lab(o[1]))
             elif k == "sml":
                 G.set_max_lag(o[1])
+            elif k == "or":
+                G.orient_uncertain_edge(node(o[1]), node(o[2]))
+            elif k == "he":
+                extra["answer"] = int(bool(G.has_edge(node(o[2]), node(o[3]), *([] if cls <= 1 else [lname(o[1])]))))
             elif k == "cp":
                 H = G.copy()
                 extra["copy_class"] = type(H).__name__
@@ -470,6 +536,8 @@ def _first_diff(case, impl, model):
             return (i, "edges")
         if "layer_nodes_differ" in a or "layer_names" in a:
             return (i, "layer-nodes")
+        if a.get("answer", 0) != b.get("answer", 0):
+            return (i, "answer")
         if "copy_class" in a and a["copy_class"] != CLS_NAMES[case["cls"]]:
             return (i, "copy-class")
         if a.get("original_mutated"):
@@ -510,7 +578,7 @@ def nontrivial(case, model):
 
 def key(case):
     import json
-    return json.dumps([case["cls"], case["L"], case["ops"], case.get("init"), case.get("var"), case.get("_lab"), case.get("warm_at")])
+    return json.dumps([case["cls"], case["L"], case["ops"], case.get("init"), case.get("var"), case.get("_lab"), case.get("warm_at"), case.get("_layers")])
 
 
 def shrink(case):
@@ -537,3 +605,5 @@ def shrink(case):
                 yield dict(case, init=[e if l != ly else es[:j] + es[j + 1:] for l, e in enumerate(case["init"])])
     if case.get("_lab") is not None:
         yield {k: v for k, v in case.items() if k != "_lab"}
+    if case.get("_layers") is not None:
+        yield {k: v for k, v in case.items() if k != "_layers"}
